@@ -16,6 +16,7 @@ import GruleModel.Spec
 import GruleModel.Snapshot
 import GruleModel.Properties.TableTie
 import GruleModel.Properties.SyntaxTie
+import GruleModel.Proofs.ParseDoc
 namespace Grule.C05
 open Grule Grule.Expected Grule.Syntax
 
@@ -232,6 +233,28 @@ example : parsesTo [tk .dec "1", tk .minus "-", tk .dec "2", tk .minus "-", tk .
 example : parsesTo [tk .dec "4", tk .plus "+", tk .dec "1", tk .bitand "&", tk .dec "1"] (.bin .band (.bin .add four one) one) = true := by
   decide +kernel
 
+-- 1'. grouping: the print/parse round trip of the parser model (R10), token level -----------------------------------
+
+/-- **operators group by `prec` and associate to the left; parentheses, negation, calls, members, selectors and argument
+    lists are read back as written** — for every well-formed expression tree of any size and depth: the parser model
+    returns exactly that tree from the tree's token sequence (`Proofs/ParseGroup`, `Proofs/ParseAtoms`). The literal
+    decoder is a parameter (`ConstOK`: it inverts the notation the constants are printed in). Together with
+    `C05_precedence_tied` (`prec` = generated parser = grammar = published table) this is the grouping sentence of the
+    property for the model; the lexer (characters → tokens) and the literal notations are validated, not proved. -/
+theorem C05_parse_print (d : Dec) (cT : Const → List Token) (ot : BinOp → List Char) (hc : ParseAtoms.ConstOK d cT)
+    (e : Expr) (hw : ParseAtoms.WFE e) (p f : Nat) (ts : List Token) (hp : p ≤ ParseGroup.level e) (hf : ParseAtoms.nE e ≤ f)
+    (hs : ParseGroup.stopAtom ts = true) (hfollow : ∀ op, ParseGroup.headOp ts = some op → prec op < p) :
+    parseExpr d (f + 1) p (ParseAtoms.fE cT ot e ++ ts) = .ok (e, ts) :=
+  ParseAtoms.parse_print d cT ot hc e hw p f ts hp hf hs hfollow
+
+/-- `a ∘ b ∘' c` without parentheses: read as `(a ∘ b) ∘' c` exactly when `∘'` does not bind tighter than `∘` (left
+    associativity at equal strength), as `a ∘ (b ∘' c)` when it does — the two trees have the same tokens, and only the one
+    that is well grouped is what the parser returns -/
+theorem C05_three_operands (o1 o2 : BinOp) (a b c : Atom) :
+    (prec o2 ≤ prec o1 → ParseGroup.WG (.bin o2 (.bin o1 (.atom a) (.atom b)) (.atom c))) ∧
+    (prec o1 < prec o2 → ParseGroup.WG (.bin o1 (.atom a) (.bin o2 (.atom b) (.atom c)))) :=
+  ⟨ParseGroup.WG_left o1 o2 a b c, ParseGroup.WG_right o1 o2 a b c⟩
+
 #print axioms C05_int_arith
 #print axioms C05_int_add_exact
 #print axioms C05_int_mul_exact
@@ -250,6 +273,10 @@ example : parsesTo [tk .dec "4", tk .plus "+", tk .dec "1", tk .bitand "&", tk .
 #print axioms C05_method_gets_args
 #print axioms C05_keyword_case
 #print axioms C05_precedence_tied
+#print axioms C05_parse_print
+#print axioms C05_three_operands
+#print axioms Grule.ParseGroup.parse_roundtrip
+#print axioms Grule.ParseDoc.unary_ok
 #print axioms Grule.TableTie.tie_add
 #print axioms Grule.TableTie.tie_div
 #print axioms Grule.TableTie.tie_mod
